@@ -188,6 +188,7 @@ func (rm *RequestManager) requestTask(requestID graphsync.RequestID) executor.Re
 		P:                    ipr.p,
 		InProgressErr:        ipr.inProgressErr,
 		ReconciledLoader:     ipr.reconciledLoader,
+		PanicCallback:        rm.panicCallback,
 		Empty:                false,
 	}
 }
